@@ -48,9 +48,10 @@ VARIABLES l,        \* next event
           donev,    \* version for which completion was reported (0 none)
           fin,      \* latest version successfully finalized (-1 none)
           fins,     \* all versions finalized in this scenario
+          stale,    \* the restore a gated (in-flight) call belongs to was aborted since the call was gated
           bad,      \* first broken clause of the scenario
           trips     \* every broken clause with the index of the event that broke it (a known breach must not mask a later one)
-tvars == <<l, n, act, rsact, forged, pend, got, donev, fin, fins, bad, trips>>
+tvars == <<l, n, act, rsact, forged, pend, got, donev, fin, fins, stale, bad, trips>>
 
 Rng(s) == {s[i] : i \in DOMAIN s}
 All == 1..n
@@ -80,7 +81,7 @@ Check(e, clause, act2, fin2) ==
     IN  /\ bad' = First(bad, First(p, First(clause, o)))
         /\ trips' = trips \o Trip(p) \o Trip(clause) \o Trip(o)
 
-TraceInit == /\ l = 1 /\ n = 0 /\ act = 0 /\ rsact = FALSE /\ forged = 0 /\ pend = {} /\ got = {} /\ donev = 0 /\ fin = -1 /\ fins = {}
+TraceInit == /\ l = 1 /\ n = 0 /\ act = 0 /\ rsact = FALSE /\ forged = 0 /\ pend = {} /\ got = {} /\ donev = 0 /\ fin = -1 /\ fins = {} /\ stale = FALSE
              /\ bad = "none" /\ trips = <<>>
 
 TrBegin ==
@@ -93,7 +94,7 @@ TrBegin ==
        IN /\ n' = e.nchunks
           /\ bad' = c
           /\ trips' = Trip(c)
-    /\ act' = 0 /\ rsact' = FALSE /\ forged' = 0 /\ pend' = {} /\ got' = {} /\ donev' = 0 /\ fin' = -1 /\ fins' = {}
+    /\ act' = 0 /\ rsact' = FALSE /\ forged' = 0 /\ pend' = {} /\ got' = {} /\ donev' = 0 /\ fin' = -1 /\ fins' = {} /\ stale' = FALSE
 
 TrStart ==
     /\ IsEvent("start")
@@ -103,7 +104,7 @@ TrStart ==
           /\ rsact' = (IF e.rserr = "" THEN TRUE ELSE rsact)
           /\ forged' = e.forged /\ pend' = All /\ got' = {} /\ donev' = 0
           /\ Check(e, IF ok THEN "none" ELSE "start-failed", act', fin)
-    /\ UNCHANGED <<n, fin, fins>>
+    /\ UNCHANGED <<n, fin, fins, stale>>
 
 TrStartRs ==
     /\ IsEvent("startrs")
@@ -111,28 +112,31 @@ TrStartRs ==
        /\ rsact' = (IF e.rserr = "" THEN TRUE ELSE rsact)
        /\ forged' = e.forged /\ pend' = All
        /\ Check(e, IF e.rserr = "" THEN "none" ELSE "start-failed", act, fin)
-    /\ UNCHANGED <<n, act, got, donev, fin, fins>>
+    /\ UNCHANGED <<n, act, got, donev, fin, fins, stale>>
 
 (* outcome of handing genuine chunk i to RestoreChunk *)
 Accepted(res) == res \in {"ok", "done"}
-GenuineClause(i, res) ==
+(* a call that was in flight when its restore was aborted is told "no restore in progress" even if a new restore *)
+(* has been started since: its chunk was verified against the aborted manifest (st)                            *)
+GenuineClause(i, res, st) ==
     IF Accepted(res) THEN (IF res = "done" /\ (got \cup {i}) # All THEN "done-early" ELSE "none")
-    ELSE IF res = "norestore" THEN (IF rsact THEN "valid-chunk-rejected" ELSE "none")
+    ELSE IF res = "norestore" THEN (IF rsact /\ ~st THEN "valid-chunk-rejected" ELSE "none")
     ELSE IF res = "already" THEN (IF rsact /\ i \in pend THEN "valid-chunk-rejected" ELSE "none")
     ELSE IF res = "notfound" THEN (IF i \in All THEN "valid-chunk-rejected" ELSE "none")
     ELSE IF res = "corrupted" /\ i = forged THEN "none"      \* the manifest lists another digest for this index
     ELSE "valid-chunk-rejected"
 
-Genuine(e, i, res) ==
+Genuine(e, i, res, st) ==
     /\ got' = IF Accepted(res) THEN got \cup {i} ELSE got
     /\ pend' = IF Accepted(res) THEN pend \ {i} ELSE pend
     /\ rsact' = IF res \in {"done", "prooffail"} THEN FALSE ELSE rsact
     /\ donev' = IF res = "done" THEN act ELSE donev
-    /\ Check(e, GenuineClause(i, res), act, fin)
+    /\ Check(e, GenuineClause(i, res, st), act, fin)
+    /\ stale' = FALSE
     /\ UNCHANGED <<n, act, forged, fin, fins>>
 
-TrChunk == /\ IsEvent("chunk") /\ Genuine(Trace[l], Trace[l].i, Trace[l].res)
-TrRelease == /\ IsEvent("release") /\ Genuine(Trace[l], Trace[l].i, Trace[l].res)
+TrChunk == /\ IsEvent("chunk") /\ Genuine(Trace[l], Trace[l].i, Trace[l].res, FALSE)
+TrRelease == /\ IsEvent("release") /\ Genuine(Trace[l], Trace[l].i, Trace[l].res, stale)
 
 TrBad ==
     /\ IsEvent("bad")
@@ -144,6 +148,7 @@ TrBad ==
        \* (other bytes that decode to exactly the genuine proof entries - the snappy encoding is not unique - are the same chunk)
        /\ Check(e, IF Accepted(e.res) /\ ~e.genuine /\ ~e.same THEN "corrupt-accepted"
                    ELSE IF e.res = "done" /\ (got \cup {e.i}) # All THEN "done-early" ELSE "none", act, fin)
+       /\ stale' = (stale \/ e.res = "prooffail")
     /\ UNCHANGED <<n, act, forged, fin, fins>>
 
 TrPar ==
@@ -159,21 +164,23 @@ TrPar ==
                       ELSE IF "done" \in rr /\ (got \cup is) # All THEN "done-early"
                       ELSE IF (pend \ is) = {} /\ "done" \notin rr THEN "valid-chunk-rejected"
                       ELSE "none", act, fin)
-    /\ UNCHANGED <<n, act, forged, fin, fins>>
+    /\ UNCHANGED <<n, act, forged, fin, fins, stale>>
 
 TrGate == /\ IsEvent("gate")
           /\ Check(Trace[l], "none", act, fin)
+          /\ stale' = FALSE
           /\ UNCHANGED <<n, act, rsact, forged, pend, got, donev, fin, fins>>
 
 TrAbortRs == /\ IsEvent("abortrs")
              /\ rsact' = FALSE /\ pend' = {}
              /\ Check(Trace[l], "none", act, fin)
+             /\ stale' = TRUE
              /\ UNCHANGED <<n, act, forged, got, donev, fin, fins>>
 
 TrAbort == /\ IsEvent("abort")
            /\ act' = 0 /\ rsact' = FALSE /\ pend' = {} /\ got' = {} /\ donev' = 0 /\ forged' = 0
            /\ Check(Trace[l], "none", 0, fin)
-           /\ UNCHANGED <<n, fin, fins>>
+           /\ UNCHANGED <<n, fin, fins, stale>>
 
 (* the process died inside an operation and the database was reopened: an interrupted Finalize may or may not have taken effect *)
 TrCrash ==
@@ -184,7 +191,7 @@ TrCrash ==
           /\ fins' = IF fin2 = -1 THEN fins ELSE fins \cup {fin2}
           /\ Check(e, IF e.reopen # "" THEN "reopen-failed" ELSE "none", 0, fin2)
     /\ act' = 0 /\ rsact' = FALSE /\ pend' = {} /\ got' = {} /\ donev' = 0 /\ forged' = 0
-    /\ UNCHANGED n
+    /\ UNCHANGED <<n, stale>>
 
 TrFinalize ==
     /\ IsEvent("finalize")
@@ -194,12 +201,12 @@ TrFinalize ==
           /\ fins' = IF ok THEN fins \cup {e.v} ELSE fins
           /\ act' = IF ok THEN 0 ELSE act
           /\ Check(e, IF ~ok /\ donev = e.v THEN "finalize-failed" ELSE "none", act', fin')
-    /\ UNCHANGED <<n, rsact, forged, pend, got, donev>>
+    /\ UNCHANGED <<n, rsact, forged, pend, got, donev, stale>>
 
 TrEnd ==
     /\ IsEvent("end")
     /\ PrintT(ToJson([id |-> Trace[l].id, bad |-> bad, trips |-> trips]))
-    /\ UNCHANGED <<n, act, rsact, forged, pend, got, donev, fin, fins, bad, trips>>
+    /\ UNCHANGED <<n, act, rsact, forged, pend, got, donev, fin, fins, stale, bad, trips>>
 
 TraceNext == TrBegin \/ TrStart \/ TrStartRs \/ TrChunk \/ TrRelease \/ TrBad \/ TrPar \/ TrGate \/ TrAbortRs \/ TrAbort
              \/ TrCrash \/ TrFinalize \/ TrEnd
